@@ -80,6 +80,10 @@ impl FromStr for GameState {
                 .map(|(_, s)| s)
                 .enumerate()
             {
+                if row_idx >= BOARD_HEIGHT || col_idx >= BOARD_WIDTH {
+                    return Err(anyhow::anyhow!("Board must be 8 rows by 8 columns"));
+                }
+
                 let idx = (row_idx * BOARD_WIDTH + col_idx) as u8;
                 let square = Square::from_index(idx);
                 if let Some((piece, is_p1)) = convert_char_to_piece(charr) {
